@@ -20,13 +20,13 @@ DESC = {
     "C10": {"shift": "paired runs with logL and logL+c (|c| up to 1e3; narrow / vv corners; boundaries)", "shift_full": "the same over complete random configurations"},
     "C11": {"warmup": "hull invariant on every beta=0 evidence, no -inf record, blobs of replaced draws", "warmup_full": "the same over complete random configurations with a zero region", "final_evidence": "ensembles against the analytic evidence"},
     "C12": {"contract": "pairwise covering array x seeds x all 16 posterior() option combinations", "contract_full": "the same over complete random configurations"},
-    "C13": {"modes": "scalar / vector / permuting pool / executor / threads / pool=1 / real 2-3-5 worker pools under one seed, exact call counts", "modes_full": "the same (in-process strategies) over complete random configurations"},
+    "C13": {"modes": "scalar / vector / permuting pool / executor / threads / pool=1 / real 2-3-5 worker pools under one seed, exact call counts", "modes_full": "the same (in-process strategies) over complete random configurations; calls across save_state / load_state / sample()"},
     "C14": {"pools": "Trainer+Resampler on generated pools with dying modes: label range, membership, statistics", "runs": "parallel_mcmc observed during real runs: cadence, caps, resume"},
     "C15": {"gmm": "weighted GMM invariants + metamorphic relations", "replication": "integer weights == replicated rows", "hierarchical": "hierarchical clustering: labels, caps, determinism, refit on the same object"},
     "C16": {"fold": "periodic / reflective maps against an exact rational reference"},
     "C17": {"statemanager": "model-based op sequences on StateManager (aliasing, append-only, iterate, save/load)", "sampler": "twin machine on a real sampler"},
-    "C18": {"invalid": "one violated constraint at a time on a full valid base: rejected before any likelihood call", "valid": "pairwise covering array of valid options: constructs and runs"},
-    "C19": {"fit_invariants": "fit_mvstud: finiteness, SPD, affine equivariance, permutation, memory layouts", "recovery": "nu / location / scatter recovery on simulated Student-t data", "fallback": "degenerate inputs fall back, per-mode fits"},
+    "C18": {"invalid": "one violated constraint at a time on a full valid base: rejected before any likelihood call", "valid": "pairwise covering array of valid options: constructs and runs", "valid_full": "random complete valid configurations (all blob forms, real 2-worker pool, save_every): run to completion with the postconditions"},
+    "C19": {"modes": "ModeStatistics (from_particles / from_global / constructor): Cholesky factor and inverse belong to the exposed covariance; equivariance under per-coordinate scaling 1e-6..1e6, translation, permutation", "fit_invariants": "fit_mvstud: finiteness, SPD, affine equivariance, permutation, memory layouts", "recovery": "nu / location / scatter recovery on simulated Student-t data", "fallback": "degenerate inputs fall back, per-mode fits"},
     "C20": {"ess": "ESS bounds, scale/shift/permutation invariance", "trim": "trim keeps total weight semantics, monotone, idempotent", "volume": "volume-variation metric bounds and invariances"},
 }
 
